@@ -95,3 +95,30 @@ Proof.
   intros j Hj. destruct (H j Hj) as [A B]. split; [exact A|]. apply (matched_round_closed g' j Hj B).
 Qed.
 Print Assumptions C05_never_closed_early.
+
+(* within one lap.  pending s = the number of seats that have not acted since the wager to match last went up
+   (or since the last all-in).  In an open round it is between 1 and the number of seats; an accepted action
+   that leaves the round open either lowers it by exactly one or is a wager increase / all-in that starts a
+   new lap (pending >= seats - 1).  Hence at most seats - 1 actions in a row can leave the round open without
+   a wager increase or all-in: the round closes within one lap. *)
+From PF Require Import ProofsPhase.
+Theorem C05_open_round_has_a_seat_to_act :
+  forall c deck g ops,
+    cfg_ok c -> length deck = length (c_deck c) -> create c deck = (g, Ok) ->
+    let s := run g ops in
+    st_event (g_st s) = EvRoundStarted -> 1 <= pending s <= zn (nplayers s).
+Proof.
+  intros c deck g ops Hc Hl Hcr s Ev. apply open_round_pending; [apply (Good_reachable c deck g ops Hc Hl Hcr)|exact Ev].
+Qed.
+Print Assumptions C05_open_round_has_a_seat_to_act.
+
+Theorem C05_closes_within_one_lap :
+  forall c deck g ops who a x s',
+    cfg_ok c -> length deck = length (c_deck c) -> create c deck = (g, Ok) ->
+    step (run g ops) (OAct who a x) = (s', Ok) -> st_event (g_st s') = EvRoundStarted ->
+    pending s' = pending (run g ops) - 1 \/ zn (nplayers (run g ops)) - 1 <= pending s'.
+Proof.
+  intros c deck g ops who a x s' Hc Hl Hcr Hs Ev.
+  apply (lap_progress (run g ops) who a x s' (Good_reachable c deck g ops Hc Hl Hcr) (Lap_reachable c deck g ops Hc Hl Hcr) Hs Ev).
+Qed.
+Print Assumptions C05_closes_within_one_lap.
